@@ -1183,12 +1183,19 @@ def run(ctx):
                       "origin": "defect probe", "defect": "mid"})
         nprog = ctx.n(150, 1500)
         feats = {}
+        strcalls = {}
         for k in range(nprog):
             size = ctx.rng.choice([4, 8, 8, 15, 15, 25, 40]) if k % 25 else ctx.rng.choice([120, 200])
             g = Gen(ctx.rng, size).program()
             for f in g.feat:
                 feats[f] = feats.get(f, 0) + 1
             lines = g.render("punch")
+            for ln in lines:                          # measured, not assumed: calls of the string primitives per run
+                for fn in ("INSTR(", "MID$(", "PAD(", "LTRIM(", "RTRIM(", "TRIM(", "LEN(", "ASC(", "CHR$("):
+                    c = ln.count(fn) - (ln.count("LTRIM(") + ln.count("RTRIM(") if fn == "TRIM(" else 0)
+                    if c:
+                        strcalls[fn[:-1]] = strcalls.get(fn[:-1], 0) + c
+                strcalls["INSTR literal pair"] = strcalls.get("INSTR literal pair", 0) + len(re.findall(r'INSTR\("[abcx ]*", "[abcdx ]*"\)', ln))
             cases.append({"host": "punch", "lines": lines, "origin": "generated"})
             r = k % 5
             if r == 0:
@@ -1200,7 +1207,7 @@ def run(ctx):
             if k % 2 == 0:
                 ml, what = mutate(ctx.rng, lines)
                 cases.append({"host": "punch", "lines": ml, "origin": "mutated: " + what})
-        ctx.extra["input_distribution"] = {"generated_programs": nprog, "features": feats,
+        ctx.extra["input_distribution"] = {"generated_programs": nprog, "features": feats, "string_function_calls": strcalls,
                                            "lines_per_program": "4..40 main-block lines, every 25th program 120..200",
                                            "hosts": "every program as USER_PUNCH; 1/5 each also as CALCULATE_VALUES, RATES, USER_PRINT; every 2nd mutated"}
         bad = reserved_words() & set(NUMV + TNTV + LOOPV + SUBV + ["w1", "w2", "cg", "ss", "o_", "n", "i"] + [a for a, _ in ARRS + SARRS] + [s.lower() for s in STRV])
